@@ -98,6 +98,8 @@ def check(run: Run, ctx) -> None:
     g.run_corr(run, ctx, "vf.corr.resolve", "Resolve (OpenAPISchemaResolver vs Pog.Resolve: required/optional, union members)", quick=0.3, thorough=3.0)
     g.run_oracle(run, ctx, g.Informational(known), "vf.corr.resolve", "resolver oracle (optional = not required; union members distinct and complete)",
                  {"resolve.named_no_stem_no_import": "-hazard", "resolve.string_enum_no_import": "-hazard"}, quick=0.2, thorough=2.0)
+    g.run_corr(run, ctx, "vf.corr.dc", "Dc (DataclassGenerator.generate vs Pog.Dc: one field per property, required <-> no default)", quick=0.25, thorough=2.5)
+    g.run_oracle(run, ctx, g.Informational(known), "vf.corr.dc", "dataclass body on the real generator", {k: ("-" + v.lstrip("-")) for k, v in {"dc-enum-default-member-missing": "F53", "dc-enum-default-wrong-member": "F53", "dc-enum-default-int-member-missing": "F53", "dc-str-default-astral": "-F25-cell", "dc-float-default-nonfinite": "-hazard", "dc-default-factory-text-crash": "-hazard"}.items()}, quick=0.15, thorough=1.5)
     g.run_corr(run, ctx, "vf.corr.extract", "Extract (inline array-item / enum extraction, model kind vs Pog.Extract)", quick=0.3, thorough=3.0)
     g.run_oracle(run, ctx, g.Informational(known), "vf.corr.extract", "extraction passes / model kind on the real functions",
                  {"extract-not-idempotent": "-hazard", "extract-wire-array-flip": "-hazard"}, quick=0.2, thorough=2.0)
